@@ -10,6 +10,7 @@ package nbio
 import (
 	"encoding/binary"
 	"errors"
+	"io"
 	"net"
 	"runtime"
 	"sync"
@@ -186,6 +187,11 @@ func (c *Conn) AsyncRead() {
 					_ = c.closeWithError(err)
 					return
 				}
+				if n == 0 && len(*pbuf) > 0 && !c.IsUDP() {
+					// end of stream, everything has been read.
+					_ = c.closeWithError(io.EOF)
+					return
+				}
 				if n < len(*pbuf) && !c.IsUDP() {
 					break
 				}
@@ -227,6 +233,11 @@ func (c *Conn) AsyncRead() {
 				}
 				if err != nil {
 					_ = c.closeWithError(err)
+					return
+				}
+				if n == 0 && len(*pBuf) > 0 && !c.IsUDP() {
+					// end of stream, everything has been read.
+					_ = c.closeWithError(io.EOF)
 					return
 				}
 				if n < len(*pBuf) && !c.IsUDP() {
